@@ -775,6 +775,12 @@ func (g *Gen) loopHead(li *loopInfo, st *State, reach string) *State {
 		g.addFact("(>= " + na + " " + st.alloc + ")")
 		ns.alloc = na
 	}
+	// every reference held in a havoc'd cell was allocated before this point
+	for a := range cells {
+		if v, ok := ns.cells[a]; ok && v != st.cells[a] {
+			g.addFact(g.allocBound(v, a.Type().(*types.Pointer).Elem(), ns.alloc))
+		}
+	}
 	env2 := g.envAt(ns, nil)
 	for _, cl := range spec.Invariants {
 		if !clauseActive(cl, g.fmode) {
